@@ -130,11 +130,12 @@ Theorem C02_agreement_edit :
 Proof. exact edit_agreement. Qed.
 Print Assumptions C02_agreement_edit.
 
-(* The agreement clause for whole SETTLED SCHEDULES: a running player (playing or paused on an
+(* The agreement clause for whole SETTLED SCHEDULES: a session (playing, paused or stopped on an
    entry of a tracklist whose entries are all playable, consume off) stays settled - core and
    audio layer agree on entry and state, nothing pending - through EVERY finite sequence of
-   client commands pause / resume / next / previous / play(tlid) / seek within the track and
-   natural ends of the playing track (about-to-finish with the announced successor), each
+   client commands pause / resume / stop / play() / next / previous / play(tlid) / seek within
+   the track and natural ends of the playing track (about-to-finish with the announced
+   successor), each
    issued after the notifications of the previous one were delivered (`ok`: the command fits
    the state, the announced successor/predecessor exists, the tlid exists, the seek is within
    the track). *)
@@ -145,10 +146,13 @@ Theorem C02_settled_schedule_agreement :
 Proof. exact settled_schedule_agreement. Qed.
 Print Assumptions C02_settled_schedule_agreement.
 
+(* what the invariant means for a client: the reported entry is current with nothing pending,
+   the audio layer is in the reported state - running for "playing", not running for "paused",
+   silent for "stopped" - and, unless stopped, it holds the reported entry's URI *)
 Theorem C02_running_agrees :
   forall w c, running w c ->
-  current w = Some c /\ pending w = None /\ queue w = []
-  /\ a_uri w = Some (trk c) /\ a_state w = pstate w.
+  current w = Some c /\ pending w = None /\ queue w = [] /\ a_state w = pstate w
+  /\ (pstate w <> Stopped -> a_uri w = Some (trk c)).
 Proof. exact running_agrees. Qed.
 Print Assumptions C02_running_agrees.
 
